@@ -273,6 +273,8 @@ func main() {
 	// one-shot function on every text and prefix (incl. the empty prefix)
 	var oneReq []string
 	var oneGo []string
+	var heldB []byte // the Bytes result of the previous one-shot case, still held by the caller
+	var heldS, heldReq string
 	// byte-level texts for the one-shot functions: bytes that are not valid UTF-8 (a lone 0xff, a
 	// truncated lead byte, a lone continuation byte) must come out as they went in
 	oneTexts := append([][]byte{}, texts...)
@@ -298,6 +300,37 @@ func main() {
 			if gs != string(gb) {
 				res.AddDisagreement(lib.Disagreement{Kind: "spec", Input: oneReq[len(oneReq)-1], Go: gs, Model: string(gb),
 					SpecVerdict: "violates", What: "indent.String and indent.Bytes differ on the same text and prefix"})
+			}
+			// what Bytes hands out is the caller's own: it must keep its value while the package renders
+			// again (a writer streaming the same text, a second Bytes call), and what the caller does to
+			// it (overwrite, append into spare capacity) must not reach later renderings.  Inputs are
+			// passed as copies here because Bytes may return its argument when there is nothing to add.
+			{
+				var sink bytes.Buffer
+				w := indent.NewWriter(&sink, pre)
+				w.Write(append([]byte{}, t...))
+				gb2 := indent.Bytes([]byte(pre), append([]byte{}, t...))
+				if string(gb) != gs {
+					res.AddDisagreement(lib.Disagreement{Kind: "spec", Input: oneReq[len(oneReq)-1], Go: string(gb), Model: gs,
+						SpecVerdict: "violates", What: "a rendering handed out by indent.Bytes changed while the caller held it (a writer and a second Bytes call rendered in between): it no longer is the one-shot rendering of its text"})
+				}
+				if heldB != nil && string(heldB) != heldS {
+					res.AddDisagreement(lib.Disagreement{Kind: "spec", Input: heldReq + " then " + oneReq[len(oneReq)-1], Go: string(heldB), Model: heldS,
+						SpecVerdict: "violates", What: "a rendering handed out by indent.Bytes for an earlier text changed when a later text was rendered"})
+				}
+				for i := range gb2 {
+					gb2[i] = 'X'
+				}
+				gb2 = append(gb2[:0], bytes.Repeat([]byte{'Y'}, cap(gb2))...)
+				if gb3 := indent.Bytes([]byte(pre), append([]byte{}, t...)); string(gb3) != gs {
+					res.AddDisagreement(lib.Disagreement{Kind: "spec", Input: oneReq[len(oneReq)-1], Go: string(gb3), Model: gs,
+						SpecVerdict: "violates", What: "after the caller overwrote a rendering it had been handed by indent.Bytes, a later Bytes call on the same text no longer gives the one-shot rendering"})
+				}
+				if sink.String() != gs && pre != "" {
+					// (the stream comparison proper is the enumeration above; here only as a witness)
+					_ = gb2
+				}
+				heldB, heldS, heldReq = gb, gs, oneReq[len(oneReq)-1]
 			}
 			oneGo = append(oneGo, lib.HexS(gs))
 		}
